@@ -8,6 +8,7 @@ ENTRY = {
                    "ignored trailing slash both ways, redirect, 404, 405, OPTIONS, manual Lookup with and without tsr) over contexts recycled from earlier requests "
                    "of other shapes and over trees replaced in between. Clones taken before/after writing are stored and re-inspected after all later requests.",
         level_note="Expectations travel with the request (context value), so a wrong request in a Context shows up as disagreement between getters. Concurrent mixes sample schedules.",
+        level_more='Later additions: a three-method server-side writer and io.WriteString, requests without a query string, net/http handlers behind WrapF keeping their request context, a handler panicking below CustomRecovery whose recovery function looks up another request, the live request edited in place after Clone, RemoteIP/ClientIP among the inspected getters.',
         rule="cases: request sequences; evaluations are requests; non-trivial = some request reuses a pooled context after a request of a different shape on the same tree; distinct by the step list",
         assumptions=["handlers only use the documented Context API"],
         quick=[REPLAY,
